@@ -308,10 +308,20 @@ class Mir:
             if fn.impl and fn.impl.get("trait") and fn.name:
                 trait_impl_methods[(fn.impl["trait"], fn.name)].append(fn.key)
 
+        from_impls = {}  # (source type string, target type string) -> fn key of `<U as From<T>>::from`
+        for fn in self.fns.values():
+            if fn.impl and fn.impl.get("trait") == "std::convert::From" and fn.name == "from" and fn.inputs:
+                from_impls[(fn.inputs[0]["s"], fn.impl["self_ty"]["s"])] = fn.key
+
         def add_callee(src, ce):
             if ce is None:
                 return
             r = ce.get("resolved")
+            # std's blanket `impl<T, U: From<T>> Into<U> for T` calls the local From impl
+            if (ce["path"] == "std::convert::Into::into" or (r and r["path"] == "<T as std::convert::Into<U>>::into")) and len(ce["args"]) == 2:
+                k = from_impls.get((ce["args"][0], ce["args"][1]))
+                if k:
+                    cg[src].add(k)
             if r is not None and r["local"] and r["key"] in self.fns:
                 cg[src].add(r["key"])
                 return
@@ -357,7 +367,7 @@ class Mir:
             # closure types mentioned in local declarations (zero-sized closures are never aggregated)
             for l in fn.locals:
                 for ck in l["ty"].get("closures", []):
-                    if ck in self.fns:
+                    if ck in self.fns and ck != fn.key:
                         cg[fn.key].add(ck)
                 for fk in l["ty"].get("fndefs", []):
                     if fk in self.fns:
